@@ -459,6 +459,7 @@ def run(chk):
     _grammarcache_rule(chk, prog, tu)
     _endpos_rule(chk, prog, tu)
     _capscope_rule(chk, fn)
+    _repeatempty_rule(chk, fn)
     cfn = prog.need_func("peg_compile1", tu)
     chk.analysed(cfn)
     _restore_rule(chk, cfn, "C12-SCOPE", "grammar",
@@ -622,3 +623,34 @@ def _capscope_rule(chk, fn):
                           "when the sub-pattern captured nothing, a capture made earlier in the match is used instead "
                           "((* (<- \"a\") (/ \"b\" {\"a\" 1})) on \"ab\" yields 1)" % x.text()[:50])
     chk.floor(rule, 2, n)
+
+
+def _repeatempty_rule(chk, fn):
+    """An unbounded repetition has to stop when its sub-pattern matches the empty string (it would loop for ever).  But
+    an empty match can be repeated any number of times, so it also satisfies whatever minimum count is still missing:
+    the stop may be taken only once the minimum has been reached - as happens when the upper bound is finite and the loop
+    simply runs on.  Otherwise (at-least 2 (any "a")) fails on "aab" while (between 2 3 (any "a")) succeeds."""
+    rule = "C12-REPEATEMPTY"
+    chk.rule(rule, "the empty-match exit of an unbounded repetition is taken only when the minimum count has been reached")
+    n = 0
+    for x in fn.nodes:
+        if x.k != "if" or not x.kids or x.kids[0] is None:
+            continue
+        if "RULE_BETWEEN" not in (enclosing_cases(x) or []):
+            continue
+        cond = x.kids[0]
+        emptytest = [y for y in cond.walk() if y.k == "bin" and y.op == "==" and all(is_ref(strip_casts(k)) for k in y.kids)
+                     and set(strip_casts(k).name for k in y.kids) == {"next_text", "text"}]
+        leaves = any(y.k == "break" for y in x.kids[1].walk())
+        if not emptytest or not leaves:
+            continue
+        n += 1
+        chk.instance(rule)
+        if any(is_ref(y, "lo") for y in cond.walk()):
+            chk.ok(rule, "RULE_BETWEEN: the empty-match exit is tied to the minimum count")
+        else:
+            chk.violation(rule, "peg.c", "peg_rule", "RULE_BETWEEN:empty-exit", x.loc,
+                          "`%s` leaves the repetition at an empty match whatever the count so far: with fewer than `lo` repetitions done the "
+                          "rule then fails, although the empty match could be repeated - (at-least 2 (any \"a\")) on \"aab\" fails while "
+                          "(between 2 3 (any \"a\")) succeeds" % cond.text()[:70])
+    chk.floor(rule, 1, n)
